@@ -203,3 +203,63 @@ pub fn decode_envelope(bytes: &[u8]) -> Option<(String, bool, Vec<u8>)> {
     let e: crate::network::RequestResponseEnvelope = postcard::from_bytes(bytes).ok()?;
     Some((e.message_id, e.is_response, e.payload))
 }
+
+// ---------------------------------------------------------------------------
+// Seeded yield points
+// ---------------------------------------------------------------------------
+
+thread_local! {
+    /// (rate per 256, xorshift state); rate 0 = never yield
+    static YIELD: Cell<(u32, u64)> = const { Cell::new((0, 0)) };
+}
+
+/// Make lock acquisitions of instrumented components yield with probability
+/// `rate_per_256 / 256`, decided by a xorshift stream seeded with `seed`.
+pub fn set_yield_points(rate_per_256: u32, seed: u64) {
+    YIELD.with(|y| y.set((rate_per_256.min(256), seed | 1)));
+}
+
+/// A seeded yield point: hands control back to the scheduler, or not.
+pub async fn maybe_yield() {
+    let go = YIELD.with(|y| {
+        let (rate, mut x) = y.get();
+        if rate == 0 {
+            return false;
+        }
+        x ^= x << 13;
+        x ^= x >> 7;
+        x ^= x << 17;
+        y.set((rate, x));
+        ((x >> 24) & 0xff) < rate as u64
+    });
+    if go {
+        tokio::task::yield_now().await;
+    }
+}
+
+/// `tokio::sync::RwLock` whose `read`/`write` pass a seeded yield point first.
+pub struct YieldingRwLock<T>(tokio::sync::RwLock<T>);
+
+impl<T> YieldingRwLock<T> {
+    pub fn new(value: T) -> Self {
+        Self(tokio::sync::RwLock::new(value))
+    }
+    pub async fn read(&self) -> tokio::sync::RwLockReadGuard<'_, T> {
+        maybe_yield().await;
+        self.0.read().await
+    }
+    pub async fn write(&self) -> tokio::sync::RwLockWriteGuard<'_, T> {
+        maybe_yield().await;
+        self.0.write().await
+    }
+    pub fn try_read(
+        &self,
+    ) -> Result<tokio::sync::RwLockReadGuard<'_, T>, tokio::sync::TryLockError> {
+        self.0.try_read()
+    }
+    pub fn try_write(
+        &self,
+    ) -> Result<tokio::sync::RwLockWriteGuard<'_, T>, tokio::sync::TryLockError> {
+        self.0.try_write()
+    }
+}
